@@ -1,3 +1,5 @@
+//go:build all || c05 || c08 || c19
+
 package props
 
 import (
